@@ -16,11 +16,12 @@ FILE_BASES = ["lib", "types", "service", "foo.bar", "import", "metadata", "class
 SUB_SEGS = ["admin", "s", "types2", "audit", "t", "u", "admin"]      # a segment may repeat along a path (`admin.admin`)
 T3_NAME_VALUES = ["my_lib", "shelf", "book_shelf", "lib2", "a"]
 NS_OVERRIDE_SEGS = ["foo", "bar", "zed", "google", "cloud", "ads", "a1", "x_y"]
+DEP_PKGS = ["other.common.v1", "google.iam.v1", "google.cloud.location", "other.v1", "other", "dep.a.b.c.v2", "other.common.v1.admin"]
 COLLIDING = [("common_types", "common.types"), ("foo.bar", "foo_bar"), ("import", "import_"), ("class_", "class"), ("a_b.c", "a.b_c"), ("metadata", "metadata_")]
 
 
 def gen_case(r: apigen.Rng, idx: int):
-    ns = [r.pick(NS_POOL) for _ in range(r.randint(0, 3))]
+    ns = [r.pick(NS_POOL) for _ in range(r.pick([0, 0, 1, 2, 3]))]        # SHORT target packages (`lib`, `lib.v1`) are as likely as long ones
     name = r.pick(NAMES)
     ver = r.pick(VERSIONS)
     pkg = ".".join(ns + [name] + ([ver] if ver else []))
@@ -34,6 +35,11 @@ def gen_case(r: apigen.Rng, idx: int):
     sub = r.maybe(0.45) and ver != ""
     case = {"pkg": pkg, "ns": ns, "name": name, "version": ver, "files": [], "deps": r.maybe(0.5), "sub": None,
             "prefix_dep": bool(ver) and ver in ("v1", "v2alpha") and r.maybe(0.05)}
+    if case["deps"]:
+        # the dependency-only file's package: 1..5 segments, so that it is shorter than, as long as, and LONGER than the target
+        # package (`acme.v1` importing `google.iam.v1`): its extra segments are no sub-package of the API
+        case["dep_pkg"] = r.pick(DEP_PKGS)
+        case["dep2"] = r.maybe(0.3)          # the dependency imports a further, longer, dependency-only file
     for i, b in enumerate(bases):
         case["files"].append({"base": b, "pkg": pkg, "messages": r.randint(0 if (i and not any(b in c for c in COLLIDING)) else 1, 2), "enum": r.maybe(0.3), "services": 0})
     case["files"][0]["services"] = r.randint(1, 2)
@@ -104,9 +110,18 @@ def gen_case(r: apigen.Rng, idx: int):
 def build_files(case):
     files, targets = [], []
     dep = None
+    dpkg = case.get("dep_pkg") or "other.common.v1"
     if case["deps"]:
-        dep = apigen.File("other/common/v1/shared.proto", "other.common.v1", deps=[])
-        dep.msg("Shared").field("id")
+        dep2 = None
+        if case.get("dep2"):
+            dep2 = apigen.File("/".join(dpkg.split(".")) + "/deeper/v3/deepbase.proto", dpkg + ".deeper.v3", deps=[])
+            dep2.msg("Base").field("id")
+            files.append(dep2)
+        dep = apigen.File("/".join(dpkg.split(".")) + "/shared.proto", dpkg, deps=[])
+        sh = dep.msg("Shared"); sh.field("id")
+        if dep2 is not None:
+            dep.dep(dep2.name)
+            sh.field("base", "message", type_name="." + dpkg + ".deeper.v3.Base")
         files.append(dep)
     pdep = None
     if case.get("prefix_dep"):
@@ -129,7 +144,7 @@ def build_files(case):
             m = f.msg(f"Msg{mcount}"); mcount += 1
             m.field("name")
             if dep is not None and k == 0:
-                m.field("shared", "message", type_name=".other.common.v1.Shared")
+                m.field("shared", "message", type_name="." + dpkg + ".Shared")
             if pdep is not None and k == 0 and i == 0:
                 m.field("legacy", "message", type_name="." + pdep.pb.package + ".Legacy")
             msgs.append(m)
@@ -307,8 +322,28 @@ def oracle(ctx, case, res, files, targets, payload, mroot=None):
     if case.get("prefix_dep") and any(n.split("/")[-1] == "legacy.py" for n in names):
         ctx.fail("dependency-file-emitted:string-prefix-package", f"output for the dependency-only file legacy.proto of package {case['pkg']}beta: "
                  f"{[n for n in names if n.endswith('/legacy.py')]}", payload)
-    if any("shared" in n.split("/")[-1] or n.startswith("other/") for n in names):
-        ctx.fail("dependency-file-emitted", f"output for a dependency-only file: {[n for n in names if 'shared' in n or n.startswith('other/')][:3]}", payload)
+    dpath = (case.get("dep_pkg") or "other.common.v1").replace(".", "/") + "/"
+    if case["deps"] and any(n.split("/")[-1] in ("shared.py", "deepbase.py") or n.startswith(dpath) for n in names):
+        ctx.fail("dependency-file-emitted", f"output for a dependency-only file: {[n for n in names if n.split('/')[-1] in ('shared.py', 'deepbase.py') or n.startswith(dpath)][:3]}", payload)
+    # DIRECTORIES: the `%sub` directories of the library and of its unit tests are exactly the sub-packages of the TARGET files (and the
+    # packages between them and the API package); a dependency-only file — whatever the length of its package — contributes none
+    allowed = {""}
+    for fd in case["files"]:
+        segs = [x for x in fd["pkg"][len(case["pkg"]):].strip(".").split(".") if x]
+        for j in range(1, len(segs) + 1):
+            allowed.add("/".join(segs[:j]))
+    for top in (root, "tests/unit/gapic/" + root.rsplit("/", 1)[-1]):
+        seen = set()
+        for n in names:
+            if n.startswith(top + "/"):
+                segs = n[len(top) + 1:].split("/")[:-1]
+                cut = next((j for j, x in enumerate(segs) if x in ("types", "services")), len(segs))
+                seen.add("/".join(segs[:cut]))
+        bogus = sorted(seen - allowed)
+        if bogus:
+            ctx.fail("directory-of-no-target-package", f"under {top}/ there are directories {bogus} that are no sub-package of a target file (target sub-packages: "
+                     f"{sorted(allowed - {''})}; dependency package: {case.get('dep_pkg') if case['deps'] else None}): "
+                     f"{[n for n in names if n.startswith(top + '/' + bogus[0] + '/')][:4]}", payload)
     for n in names:
         b = n.split("/")[-1]
         if b.startswith("_") and b != "__init__.py" and n not in underscore_ok:
@@ -646,6 +681,19 @@ CORPUS = [
                {"base": "_", "pkg": "acme.lib.v1", "messages": 1, "enum": False, "services": 0},
                {"base": "__private", "pkg": "acme.lib.v1.admin", "messages": 2, "enum": False, "services": 1}],
      "opts": ["transport=grpc+rest", "autogen-snippets=false"], "unknown": ["zzz=1"]},
+    # a SHORT target package importing a dependency-only file with a LONGER package (`lib.v1` <- `google.iam.v1` <- `google.iam.v1.deeper.v3`):
+    # the extra segments of the dependency's package are no sub-package of the API, no directory is emitted for them
+    {"pkg": "lib.v1", "ns": [], "name": "lib", "version": "v1", "deps": True, "dep_pkg": "google.iam.v1", "dep2": True, "sub": None, "override_name": None, "override_ns": None,
+     "files": [{"base": "lib", "pkg": "lib.v1", "messages": 1, "enum": False, "services": 1}],
+     "opts": ["transport=grpc", "autogen-snippets=false"], "unknown": ["zzz=1"]},
+    # likewise unversioned (`library` <- `google.cloud.location`) and with a real sub-package next to it
+    {"pkg": "library", "ns": [], "name": "library", "version": "", "deps": True, "dep_pkg": "google.cloud.location", "sub": None, "override_name": None, "override_ns": None,
+     "files": [{"base": "lib", "pkg": "library", "messages": 1, "enum": False, "services": 1}],
+     "opts": ["transport=rest", "autogen-snippets=false"], "unknown": ["unknown"]},
+    {"pkg": "acme.v1", "ns": [], "name": "acme", "version": "v1", "deps": True, "dep_pkg": "other.common.v1.admin", "sub": ["admin"], "override_name": None, "override_ns": None,
+     "files": [{"base": "lib", "pkg": "acme.v1", "messages": 1, "enum": False, "services": 1},
+               {"base": "ops", "pkg": "acme.v1.admin", "messages": 1, "enum": False, "services": 0}],
+     "opts": ["transport=grpc+rest", "autogen-snippets=false"], "unknown": ["zzz=1"]},
     # a package without namespace segments (setup.py.j2 crashed before the C11 fix: commit)
     {"pkg": "lib.v1", "ns": [], "name": "lib", "version": "v1", "deps": False, "sub": None, "override_name": None, "override_ns": None,
      "files": [{"base": "lib", "pkg": "lib.v1", "messages": 1, "enum": False, "services": 1}],
@@ -686,7 +734,8 @@ def run_init_proto(ctx, case):
 
 def run(ctx):
     ctx.rule = ("layout profile: 0..3 namespace segments x versions {v1, v1beta1, v1p1beta1, v2alpha, none} x 1..3 target files with names needing "
-                "sanitising or starting/ending with underscores, with digits and upper case x optional dependency file x optional sub-package tree (1..3 levels, 1..2 branches, intermediate packages with and "
+                "sanitising or starting/ending with underscores, with digits and upper case x optional dependency file(s) whose package has 1..5(+2) "
+                "segments (shorter / as long as / LONGER than the target package) x optional sub-package tree (1..3 levels, 1..2 branches, intermediate packages with and "
                 "without files, services/messages at any level) x option strings (known, unknown, repeated keys, "
                 "name override as 1..3 repeated keys with different values, repeated transport / warehouse-package-name, namespace override as "
                 "1..3 repeated keys each with 1..3 dotted components, interleaved); Naming.build under override option strings (0..4 namespace "
